@@ -3,6 +3,7 @@ package main
 import (
 	"fmt"
 	"go/token"
+	"sort"
 	"strings"
 
 	"golang.org/x/tools/go/ssa"
@@ -621,4 +622,99 @@ func ruleWrappers(rule string) func(*Ctx) {
 				"subject/clip roles and the (clipType, fillRule) order decide which boolean combination is computed")
 		}
 	}
+}
+
+// ruleIntersectMirror: C17.mirror on intersectEdges as a whole (semantic, independent of switch syntax):
+// Positive with winding state (w, w2, dx) must take exactly the decisions Negative takes with (-w, -w2, -dx).
+func ruleIntersectMirror(rule string) func(*Ctx) {
+	return func(c *Ctx) {
+		f := c.fn("(clipperBase).intersectEdges")
+		if !loopFree(f) {
+			fatalf("intersectEdges is no longer loop-free")
+		}
+		recv := f.Params[0].Name()
+		fills := c.enumValues("FillRule")
+		clips := c.enumValues("ClipType")
+		pos, neg := enumByName(fills, "Positive"), enumByName(fills, "Negative")
+		sig := func(fr int64, ct int64, s int64, a, b, d1, d2, w1, w2 int64, samePoly bool) string {
+			pt2 := int64(0)
+			if !samePoly {
+				pt2 = 1
+			}
+			atoms := map[string]absVal{
+				recv + ".hasOpenPaths": boolVal(false), recv + ".fillRule": intVal(fr), recv + ".clipType": intVal(ct),
+				"isJoined(ae1)": boolVal(false), "isJoined(ae2)": boolVal(false),
+				"ae1.windCount": intVal(s * a), "ae2.windCount": intVal(s * b), "ae1.windDx": intVal(s * d1), "ae2.windDx": intVal(s * d2),
+				"ae1.windCount2": intVal(s * w1), "ae2.windCount2": intVal(s * w2),
+				"ae1.localMin.PolyType": intVal(0), "ae2.localMin.PolyType": intVal(pt2),
+				"getPolyType(ae1)": intVal(0), "getPolyType(ae2)": intVal(pt2), "isSamePolyType(ae1, ae2)": boolVal(samePoly),
+			}
+			ex := &explorer{c: c, f: f, atoms: atoms, maxPaths: 3000}
+			outs := ex.explore(nil)
+			if ex.overflow {
+				fatalf("intersectEdges: path explosion")
+			}
+			var lines []string
+			for _, p := range outs {
+				var cs []string
+				for _, cl := range p.calls {
+					if strings.HasPrefix(cl.callee, "(clipperBase).") || cl.callee == "addOutPt" || cl.callee == "swapOutrecs" {
+						cs = append(cs, cl.callee)
+					}
+				}
+				var st []string
+				for _, x := range p.stores {
+					if strings.Contains(x.addr, "windCount") && x.val.abs.k == aInt {
+						st = append(st, fmt.Sprintf("%s=%d", x.addr, s*x.val.abs.i))
+					}
+				}
+				lines = append(lines, p.condString()+" => "+strings.Join(cs, ",")+" | "+strings.Join(st, ","))
+			}
+			sort.Strings(lines)
+			return strings.Join(lines, "\n")
+		}
+		reps := []int64{-2, -1, 0, 1, 2}
+		if c.tier != "thorough" {
+			reps = []int64{-1, 0, 1, 2}
+		}
+		for _, ct := range clips {
+			if ct.name == "NoClip" {
+				continue
+			}
+			bad := ""
+			n := 0
+			for _, samePoly := range []bool{true, false} {
+				for _, a := range reps {
+					for _, b := range reps {
+						for _, d := range [][2]int64{{1, 1}, {1, -1}, {-1, 1}, {-1, -1}} {
+							for _, w1 := range []int64{-1, 0, 1} {
+								for _, w2 := range []int64{-1, 0, 1} {
+									if bad != "" {
+										continue
+									}
+									n++
+									p := sig(pos, ct.val, 1, a, b, d[0], d[1], w1, w2, samePoly)
+									q := sig(neg, ct.val, -1, a, b, d[0], d[1], w1, w2, samePoly)
+									if p != q {
+										bad = fmt.Sprintf("Positive with (wc1=%d wc2=%d dx=%v w2=%d,%d samePoly=%v) decides\n%s\nbut Negative on the negated state decides\n%s", a, b, d, w1, w2, samePoly, firstLines(p, 6), firstLines(q, 6))
+									}
+								}
+							}
+						}
+					}
+				}
+			}
+			c.check(bad == "", rule, fmt.Sprintf("%s:intersectEdges:%s", rule, ct.name), f.Pos(), "(clipperBase).intersectEdges",
+				fmt.Sprintf("Positive and Negative take mirror-identical decisions (calls and winding updates) on %d winding states", n), bad,
+				"reversing all paths negates windCount, windCount2 and windDx of every edge; the Negative rule on the reversed input must do exactly what the Positive rule does on the original")
+		}
+	}
+}
+
+func firstLines(s string, n int) string {
+	l := strings.Split(s, "\n")
+	if len(l) > n {
+		l = l[:n]
+	}
+	return strings.Join(l, "\n")
 }
